@@ -1,6 +1,6 @@
 #!/bin/sh
 # run every claimed check in the quick tier for the given seeds; print one line each
-cd /verif
+cd "$(dirname "$0")/.." && V=$(pwd)   # (a snapshot of /verif runs its own copy)
 for seed in "$@"; do
   for p in $(python3 -c "import json;print(' '.join(c['property_id'] for c in json.load(open('MANIFEST.json'))['checks']))") X01 X02; do
     s=$(date +%s)
